@@ -66,6 +66,13 @@ func VPH_C30_rotation() {
 	fs := vpStdTree()
 	tlsOpts := &TLSConfig{Enabled: true, CertFile: cert, KeyFile: key, MinVersion: tls.VersionTLS12, MaxVersion: tls.VersionTLS13}
 	env := vpServer(fs, ExportOptions{TLS: tlsOpts})
+	// the settings may have been fetched before the listener was started, or afterwards
+	early := vpBool("settings-fetched-before-listen")
+	var opts ExportOptions
+	if early {
+		opts = env.nfs.GetExportOptions()
+		vpReach("settings-fetched-before-listen")
+	}
 	// what Listen does
 	listenerCfg, err := env.nfs.policy.Load().TLS.BuildConfig()
 	vpAssert(err == nil, "listener-config-builds")
@@ -74,7 +81,9 @@ func VPH_C30_rotation() {
 		vpRotateHook() // new certificate written to the same files
 	}
 	// the documented rotation step
-	opts := env.nfs.GetExportOptions()
+	if !early {
+		opts = env.nfs.GetExportOptions()
+	}
 	vpAssert(opts.TLS != nil, "tls-settings-reported")
 	vpAssert(opts.TLS.ReloadCertificates() == nil, "reload-succeeds")
 	after, _ := listenerCfg.GetCertificate(nil)
